@@ -76,6 +76,28 @@ CLAIMED["C16"] = ("proof", TECH,
             "capital cost by exactly rate x cost, grants/incentives/fees/tax relief enter by exactly their amounts.",
             TRUSTED + "Precondition: 0 <= PTC duration <= lifetime (the property's quantifier).", "DESIGN.md section 4 C16")
 
+CLAIMED.update({
+    "C02": ("proof", TECH,
+            "Per step: electricity_heat_production (8 end-uses) - heat extracted = flow x cp x (T_prod - T_inj), split "
+            "between power cycle and direct use by the end-use efficiency, gross electricity; IndustrialHeat / HeatPump / "
+            "AbsorptionChiller Calculate - useful heat / cooling / heat-pump electricity by efficiency and COP. Per year: "
+            "integrate_time_series_slice = trapezoid integral of the year's slice normalised to one year x utilization, "
+            "annual_electricity_pumping_power and the three direct-use plants fill every annual series with exactly that "
+            "integral of the corresponding power (net electricity integrates NET power), remaining heat = initial - "
+            "cumulative extracted. Symbolic series length, lifetime, steps per year.",
+            TRUSTED + "Years with a single data point (code's extrapolation rule) are excluded by precondition and not "
+            "decided; ORC/flash plant Calculate functions (net = gross - pumping), district heating and the "
+            "availability/efficiency correlations are not yet under contract.", "DESIGN.md section 4 C02"),
+    "C17": ("proof", TECH,
+            "HIP_RA_X.Calculate: volumes are the porosity fractions, stored = rock + fluid, available <= stored and "
+            "0 <= producible <= available (under T_res > T_rej and stated facts on the uninterpreted water properties); "
+            "exact scaling with area and with thickness is proved by self-composition on the real function (two symbolic "
+            "runs related by the scale factor), extensive x k, per-volume / percentage unchanged, per-area unchanged "
+            "(area) or x k (thickness), for provided and derived depth/pressure/density/heat capacity.",
+            TRUSTED + "Field identities are discharged by the ring normaliser (T3); water properties and UtilEff_func are "
+            "uninterpreted (A3); the unit clause of the statement is C06's.", "DESIGN.md section 4 C17"),
+})
+
 NOT_APPLICABLE = {
     "C13": "independence/non-replication of Monte Carlo draws across forked pool workers is a schedule/process-history "
            "property of numpy's global RNG under fork; no per-call contract can state it (DESIGN.md section 6)",
